@@ -56,6 +56,8 @@ THEOREMS = [
     "C02_pull_partial_restore_witness",
     "C02_replace_keeps_order",
     "C02_replace_reversed_witness",
+    "C02_exec_refines_queue",
+    "C02_parked_emissions_witness",
     "C02_macro_edges_kept",
     "C02_macro_reorders_witness",
     "C02_macro_order_repaired",
@@ -686,6 +688,51 @@ def _exhaustive_scripts(n_em, max_len):
 # ============================================================================== flow level
 
 
+class HeldExecutor:
+    """a `concurrent.futures.Executor` whose jobs wait until the harness releases them; a released job runs — and its
+    future's done-callbacks run — on a helper thread that is joined before `release` returns (no wall-clock race)"""
+
+    def __new__(cls, *a, **k):
+        from concurrent.futures import Executor
+
+        if not issubclass(cls, Executor):  # make it a real Executor subclass lazily (keeps the import local)
+            cls = type("HeldExecutor", (cls, Executor), {})
+        return object.__new__(cls)
+
+    def __init__(self, on_submit):
+        self.jobs = []
+        self.on_submit = on_submit
+
+    def submit(self, fn, /, *args, **kwargs):
+        from concurrent.futures import Future
+
+        fut = Future()
+        self.jobs.append((fut, fn, args, kwargs))
+        self.on_submit(fn, kwargs)
+        return fut
+
+    def release(self, j):
+        import threading
+
+        fut, fn, args, kwargs = self.jobs.pop(j % len(self.jobs))
+
+        def job():
+            fut.set_running_or_notify_cancel()
+            try:
+                res = fn(*args, **kwargs)
+            except BaseException as e:  # noqa: BLE001
+                fut.set_exception(e)
+            else:
+                fut.set_result(res)  # the done-callback (result processed, signals queued) runs here, on this thread
+
+        t = threading.Thread(target=job)
+        t.start()
+        t.join()
+
+    def shutdown(self, wait=True, *, cancel_futures=False):
+        pass
+
+
 class Runaway(BaseException):
     """raised by the guard when a flow starts more children than any generated case can"""
 
@@ -759,6 +806,34 @@ def _run_flow(case):
         idx.clear()
         idx.update({id(x): i for i, x in enumerate(ns)})
         trips[0] += 1
+
+    # children on the controllable executor; landings follow the case's schedule: during the c-th local function call
+    # (hook at the start of the wrapped function, main thread) and whenever the loop has nothing to do (its `sleep`)
+    execs = case.get("exec") or []
+    sched = case.get("sched") or {}
+    held = None
+    local_calls = [0]
+    idles = list(sched.get("idle") or [])
+    landings = [0, 0]
+    if execs:
+        def on_submit(fn, kwargs):
+            owner = getattr(fn, "__self__", None)
+            i = idx.get(id(owner))
+            if i is not None:
+                N.CALL_LOG.append((i, tuple(kwargs.get(l) for l in N.SLOTS[case["nodes"][i]["kind"]])))
+
+        held = HeldExecutor(on_submit)
+        for i in execs:
+            ns[i].executor = held
+
+        def during_local_call(_tag):
+            local_calls[0] += 1
+            for j in (sched.get("mid") or {}).get(str(local_calls[0]), []):
+                if held.jobs:
+                    landings[0] += 1
+                    held.release(j)
+
+        N.LOCAL_CALL_HOOK[0] = during_local_call
 
     plans = edit_plan(as_plain_flow(case), _edits_per_run(case))
     n_edits = [0]
@@ -839,7 +914,12 @@ def _run_flow(case):
     orig_sleep = comp_mod.sleep
 
     def no_sleep(_t):
-        # all children run locally: a composite that waits has lost track of a child — it would wait forever
+        # nothing to deliver: an outstanding executor job lands now (the schedule says which); if all children run
+        # locally a composite that waits has lost track of a child — it would wait forever
+        if held is not None and held.jobs:
+            landings[1] += 1
+            held.release(idles.pop(0) if idles else 0)
+            return
         tripped[0] = True
         raise Runaway()
 
@@ -912,6 +992,9 @@ def _run_flow(case):
             obs.append(f"outcome {outcome}")
         if (outcome == "failedchild") != bool(errs):
             obs.append(f"outcome {outcome} but errs {errs}")
+        if execs:
+            still_out = [i for i in range(n) if ns[i].running]
+            obs.append(f"phase {2 if outcome in ('ok', 'failedchild') else 1} out {nats(still_out)}")
         return {"obs": obs, "outcome": outcome, "exec": exec_log, "calls": calls, "outs": outs, "failed": failed,
                 "refused": len(fired) - len(exec_log), "running": [i for i in range(n) if ns[i].running]}
 
@@ -945,6 +1028,9 @@ def _run_flow(case):
         "flow_reruns_after_failure": len(runs) - 1,
         "flow_state_round_trips": trips[0],
         "flow_edits": n_edits[0],
+        "flow_exec_children": len(execs),
+        "flow_landings_during_local_call": landings[0],
+        "flow_landings_while_idle": landings[1],
         f"flow_outcome:{first['outcome'].split(':')[0]}": 1,
     }
     return {"obs": obs, "outcome": first["outcome"], "exec": first["exec"], "calls": first["calls"], "outs": first["outs"],
@@ -998,6 +1084,14 @@ def _flow_model_input(case):
         if trip.get("between"):
             again.append("roundtrip")
         again.append(f"rerun {MODEL_FUEL}")
+    if case.get("exec"):
+        sched = case.get("sched") or {}
+        xl = ["onexec " + " ".join(str(i) for i in case["exec"])]
+        for c, js in sorted((sched.get("mid") or {}).items(), key=lambda kv: int(kv[0])):
+            xl.append(f"mid {c} " + " ".join(str(j) for j in js))
+        if sched.get("idle"):
+            xl.append("idle " + " ".join(str(j) for j in sched["idle"]))
+        return lines + xl + [f"xrun {MODEL_FUEL}"]
     if case.get("host") != "macro":
         return lines + wire + [f"run {MODEL_FUEL}"] + again
     ui = f" {len(case['nodes'])}" if case.get("ui") else ""
@@ -1065,6 +1159,22 @@ def interpret(case, max_runs=MAX_RUNS, state=None, heal=(), pre_ops=()):
     seen = [set() for _ in range(n)]
     order, calls = [], []
     errs = set()
+    execs = set(case.get("exec") or [])
+    sched = case.get("sched") or {}
+    mid = sched.get("mid") or {}
+    idles = list(sched.get("idle") or [])
+    inflight, pend, local_calls = [], {}, [0]
+
+    def land(j):
+        """the j-th outstanding job lands: its result is processed and its signals enter the ONE queue NOW"""
+        k = inflight.pop(j % len(inflight))
+        out[k] = _py_eval(nodes[k]["kind"], k, pend.pop(k))
+        emitted = [(k, 0)]
+        if nodes[k]["kind"] == "if" and out[k] is not ND:
+            emitted.append((k, 2) if out[k] else (k, 3))
+        for s in emitted:
+            for r in sconn.get(s, []):
+                fifo.append((s, r))
     fifo = deque((None, (i, False)) for i in case["starters"])
     sizes = {}
 
@@ -1087,10 +1197,17 @@ def interpret(case, max_runs=MAX_RUNS, state=None, heal=(), pre_ops=()):
                     v = out[src]
                     break
             args.append(v)
-        ready = (not failed[i]) and all(a is not ND for a in args)
+        ready = (not failed[i]) and all(a is not ND for a in args) and i not in inflight
         if not ready:
             errs.add(i)
             return  # refused: nothing runs, nothing is emitted
+        if i in execs:  # handed to the executor: started, nothing emitted until the job lands
+            attempts[i] += 1
+            order.append(i)
+            calls.append((i, [canon(a) for a in args]))
+            inflight.append(i)
+            pend[i] = list(args)
+            return
         if nd["cache"] and cached[i] is not None and cached[i] == args:
             order.append(i)
         else:
@@ -1100,6 +1217,10 @@ def interpret(case, max_runs=MAX_RUNS, state=None, heal=(), pre_ops=()):
             order.append(i)
             if not nd.get("quiet"):
                 calls.append((i, [canon(a) for a in args]))
+            local_calls[0] += 1
+            for j in mid.get(str(local_calls[0]), []):  # jobs that land while this child's function is running
+                if inflight:
+                    land(j)
             try:
                 if attempts[i] in nd.get("fail", []):
                     raise RuntimeError
@@ -1129,9 +1250,12 @@ def interpret(case, max_runs=MAX_RUNS, state=None, heal=(), pre_ops=()):
                 run(i, emit=False)
         del order[:], calls[:]
         errs.clear()
-        while fifo:
+        while fifo or inflight:
             if len(order) > max_runs:
                 return None
+            if not fifo:  # nothing to deliver: an outstanding job lands
+                land(idles.pop(0) if idles else 0)
+                continue
             src, (r, acc) = fifo.popleft()
             if acc:
                 if src is not None:
@@ -2199,11 +2323,56 @@ def _with_edits(rng, case):
     return trial
 
 
+def _with_exec(rng, case):
+    """one to three children on the controllable executor (term nodes without injected failure whose output no other child
+    takes as data), and a landing schedule: during the c-th local function call / which outstanding job when idle"""
+    taken = {sr for _d, _sl, sr in case["data"]}
+    cand = [i for i, nd in enumerate(case["nodes"]) if nd["kind"] == "term" and not nd.get("fail") and i not in taken]
+    if not cand:
+        return None
+    execs = sorted(rng.sample(cand, min(len(cand), rng.choice([1, 1, 2, 3]))))
+    nodes = [dict(nd) for nd in case["nodes"]]
+    for i in execs:
+        nodes[i]["cache"] = False
+    mid = {str(c): [rng.randrange(3) for _ in range(rng.choice([1, 1, 2]))] for c in range(1, 13) if rng.random() < 0.5}
+    return {**case, "nodes": nodes, "exec": execs, "sched": {"mid": mid, "idle": [rng.randrange(3) for _ in range(6)]}}
+
+
+def _tpl_exec(rng):
+    """k executor children started first, each with its own follower; a local chain started after them, so that the
+    jobs are out while the chain's functions run; optionally an all-of join over followers and chain end"""
+    k, m = rng.randint(1, 3), rng.randint(2, 4)
+    nodes = [_node("term", ["d", "d", "d"], cache=False) for _ in range(2 * k + m)]
+    sig = [_s(rng, e, 0, k + e) for e in range(k)]
+    chain = list(range(2 * k, 2 * k + m))
+    sig += [_s(rng, a, 0, b) for a, b in zip(chain, chain[1:])]
+    data = [[b, 0, a] for a, b in zip(chain, chain[1:]) if rng.random() < 0.5]
+    if rng.random() < 0.6:
+        nodes.append(_node("term", ["d", "d", "d"], cache=False))
+        j = len(nodes) - 1
+        for src in [k + e for e in range(k)] + [chain[-1]]:
+            sig.append(_s(rng, src, 0, j, acc=1))
+            if len([d for d in data if d[0] == j]) < 3:
+                data.append([j, len([d for d in data if d[0] == j]), src])
+    if rng.random() < 0.4:  # an executor child re-triggered by the chain while it may still be out (refused then)
+        sig.append(_s(rng, rng.choice(chain), 0, rng.randrange(k)))
+    rng.shuffle(sig)
+    starters = list(range(k)) + [chain[0]]
+    mid = {str(c): [rng.randrange(3)] for c in range(1, m + 3) if rng.random() < 0.6}
+    return {"kind": "flow", "nodes": nodes, "data": data, "sig": sig, "starters": starters, "exec": list(range(k)),
+            "sched": {"mid": mid, "idle": [rng.randrange(3) for _ in range(6)]}}
+
+
 def _gen_flow(rng):
     for _ in range(50):
         case = rng.choice(TEMPLATES)(rng)
         for _ in range(rng.choice([0, 0, 1, 2])):
             case = _perturb(rng, case)
+        if rng.random() < 0.2:
+            xc = _tpl_exec(rng) if rng.random() < 0.5 else _with_exec(rng, case)
+            if xc is not None and _valid_flow(xc) and _terminates(xc):
+                return xc
+            continue
         if rng.random() < 0.3:
             case = _to_macro(rng, case)
         if rng.random() < 0.35:
@@ -2298,6 +2467,14 @@ def gen_cases(rng, tier):
 
 
 def corpus():
+    # seeded C02-12: slow (0, on the executor) >> after_slow (3); tick (1) >> work (2) >> after_work (4); slow lands while
+    # work's function is running (2nd local call): slow, tick, work, after_slow, after_work — also with an all-of join behind
+    ex = {"kind": "flow", "nodes": [_node("term", ["d", "d", "d"], cache=False) for _ in range(6)], "data": [],
+          "sig": [[0, 0, 3, 0, "rshift"], [1, 0, 2, 0, "rshift"], [2, 0, 4, 0, "rshift"], [3, 0, 5, 1, "lshift"], [4, 0, 5, 1, "lshift"]],
+          "starters": [0, 1], "exec": [0]}
+    yield {**ex, "sched": {"mid": {"2": [0]}, "idle": []}}
+    yield {**ex, "sched": {"mid": {}, "idle": [0]}}
+    yield {**ex, "exec": [0, 2], "sched": {"mid": {"1": [0]}, "idle": [1, 0]}}
     # seeded C02-8: replace an emitter with three receivers (0 >> 1, 0 >> 2, 0 >> 3: as written 3, 2, 1) and the owner of an
     # all-of trigger; seeded C02-9: pull a member of an all-of trigger / a receiver of an outside emitter before the run
     fan = {"kind": "flow", "nodes": [_node("term", ["d", "d", "d"]) for _ in range(5)], "data": [[4, 0, 1]],
@@ -2436,6 +2613,11 @@ def shrink_candidates(case):
             yield {k: v for k, v in case.items() if k != "pre"}
         if case.get("rerun"):
             yield {**case, "rerun": case["rerun"][:-1]}
+        if case.get("exec"):
+            sc = case.get("sched") or {}
+            for c in list((sc.get("mid") or {})):
+                yield {**case, "sched": {**sc, "mid": {k: v for k, v in sc["mid"].items() if k != c}}}
+            return
         if case.get("trip"):
             yield {k: v for k, v in case.items() if k != "trip"}
         ed = case.get("edits") or {}
